@@ -109,7 +109,7 @@ def register(reg):
     reg.contract(OB + '.streamed_block', params={'hex_hash': KStr}, returns=Opt(RB), raises={},
                  assumes_inv=False, maintains_inv=False, ensures=['implies(not is_none(result), some(result).hex_hash == hex_hash)'],
                  trusted='A-CALLEE: OnDiskBlock.streamed_block waits for the fetched block of that hash (None if the fetch failed)')
-    reg.contract(BP + '.backup_block', params={'block': RB}, raises={'ChainError': [], 'AssertionError': []},
+    BACKUP_VIEW = Contract(BP + '.backup_block', params={'block': RB}, raises={'ChainError': [], 'AssertionError': []},
                  requires=[('the-block-is-the-tip', 'block.hex_hash == hexrev(self.state.tip)')],
                  modifies=['self.state.height', 'self.state.tip', 'self.touched', 'self.utxo_cache', 'self.db_deletes'],
                  assumes_inv=False, maintains_inv=False,
@@ -128,6 +128,7 @@ def register(reg):
         ensures=[('only-blocks-above-the-fork-point-are-undone', 'self.state.height <= old(self.state.height) and self.state.height >= g_start - 1')],
         ghost={('after', 'start, hex_hashes = await self._reorg_hashes(count)'): ['g_start = start', 'h0 = self.state.height']},
         locals={'g_start': Int, 'h0': Int},
+        views={BP + '.backup_block': BACKUP_VIEW},
         loops={0: LoopSpec('for hex_hash in reversed(hex_hashes)',
                            invariants=[('undone-from-the-tip-downwards', 'self.state.height == h0 - _i and self.state.tip == ours(self.state.height)'),
                                        ('range', '_i <= len(hex_hashes) and len(hex_hashes) == h0 - g_start + 1')],
